@@ -378,6 +378,52 @@ func init() {
 			}
 		}
 
+		// a truncation becomes due THROUGH THE REAL SIGNAL PATH (a vertex from a peer that is far ahead passes
+		// the truncation mark; the background loop picks the signal up and wants the ledger lock) while several
+		// writers are queued on the ledger lock: all of them, and the loop, must get through
+		{
+			w, n := buildChain(c, 8, spice.Melange{Currency: 1000})
+			info := map[string]interface{}{"section": "wedge", "op": "truncation-due-with-queued-writers"}
+			c.Mark(info)
+			sealer := w.wallets[0]
+			okAll := true
+			for round := 0; okAll && round < 4; round++ {
+				snap := n.ab.VerifSnapshot()
+				if len(snap.Leaves) == 0 {
+					break
+				}
+				ht := w.NewTrx(w.wallets[1], w.wallets[0].Address(), spice.Melange{}, []byte{byte(round), 'a'})
+				ahead, _ := accountant.NewVertex(ht, snap.Leaves[0], snap.Leaves[0], snap.NextTruncate+uint64(5000*(round+1)), sealer)
+				r := withDeadline(15*time.Second, func() {
+					var wg sync.WaitGroup
+					n.ab.VerifHoldLedger(func() {
+						wg.Add(1)
+						go func() { defer wg.Done(); cp := ahead; n.ab.AddLeaf(context.Background(), &cp) }()
+						time.Sleep(5 * time.Millisecond)
+						for k := 0; k < 3; k++ {
+							wg.Add(1)
+							go func(k int) {
+								defer wg.Done()
+								t := w.NewTrx(w.wallets[1], w.wallets[0].Address(), spice.Melange{}, []byte{byte(round), byte(k), 'q'})
+								n.ab.CreateLeaf(context.Background(), &t)
+							}(k)
+						}
+						time.Sleep(30 * time.Millisecond)
+					})
+					wg.Wait()
+					n.ab.CalculateBalance(context.Background(), w.wallets[0].Address())
+				})
+				c.Rep.Evals++
+				c.Count("truncation-due-with-queued-writers." + r[:2])
+				if r != "ok" {
+					c.Violate("C08", "wedge-truncation-due-with-queued-writers", fmt.Sprintf("a vertex past the truncation mark and three proposals queued on the ledger lock (round %d): %s", round, r), info)
+					return nil
+				}
+				okAll = w.probe(n, "truncation-due-with-queued-writers", info)
+			}
+			c.Distinct("truncation-due-with-queued-writers")
+			w.Close()
+		}
 		// an orphan whose parent never arrives is retried until it is given up (an error path of the buffer);
 		// the next orphan, its retries and ordinary proposals must still go through
 		{
